@@ -986,8 +986,18 @@ def m_ffract(ex, st, call):
 
 @model(r'^f64::to_bits$')
 def m_to_bits(ex, st, call):
-    # NaN payloads are not distinguished by the SMT FP theory: a NaN maps to an arbitrary NaN pattern
     x = call.args[0].e
+    # from_bits(b).to_bits() == b (bit pattern preserved by moves)
+    if z3.is_app(x) and x.decl().kind() == z3.Z3_OP_FPA_TO_FP and x.num_args() == 1 and z3.is_bv(x.arg(0)):
+        return ex.ret(st, call, Int(x.arg(0), False))
+    xs = z3.simplify(x)
+    if z3.is_fp_value(xs):
+        if xs.isNaN():
+            return ex.ret(st, call, Int(z3.BitVecVal(0x7ff8000000000000, 64), False))
+        b = z3.simplify(z3.fpToIEEEBV(xs))
+        if z3.is_bv_value(b):
+            return ex.ret(st, call, Int(b, False))
+    # NaN payloads are not distinguished by the SMT FP theory: a NaN maps to an arbitrary NaN pattern
     bits = z3.BitVec(fresh_name('bits'), 64)
     st.assume(z3.fpBVToFP(bits, F64) == x)
     return ex.ret(st, call, Int(bits, False))
@@ -1110,3 +1120,64 @@ def m_f64_from(ex, st, call):
 def m_panic(ex, st, call):
     from .symex import PathEnd
     return [PathEnd('panic', st, None, 'explicit panic: %s' % call.callee)]
+
+
+@model(r'^<&(u8|u16|u32|u64|usize|i32|i64|bool|char|f64) as PartialEq>::eq$|^<&&(u8|u16|u32|u64|usize|i32|i64|bool|char|f64) as PartialEq>::eq$')
+def m_ref_prim_eq(ex, st, call):
+    a = deref2(ex, st, deref(ex, st, call.args[0]))
+    b = deref2(ex, st, deref(ex, st, call.args[1]))
+    return ex.ret(st, call, ex.binop(st, 'Eq', a, b))
+
+
+@model(r'^<&(u8|u16|u32|u64|usize|i32|i64|bool|char|f64) as PartialEq>::ne$')
+def m_ref_prim_ne(ex, st, call):
+    a = deref2(ex, st, deref(ex, st, call.args[0]))
+    b = deref2(ex, st, deref(ex, st, call.args[1]))
+    return ex.ret(st, call, ex.binop(st, 'Ne', a, b))
+
+
+@model(r'^mem::discriminant$|^discriminant$')
+def m_discriminant(ex, st, call):
+    v = deref(ex, st, call.args[0])
+    if not isinstance(v, EnumV):
+        return None
+    return ex.ret(st, call, Agg('struct', 'Discriminant', {0: Int(v.discr_expr(), True)}))
+
+
+@model(r'^<Discriminant<.*> as PartialEq>::eq$')
+def m_discriminant_eq(ex, st, call):
+    a = deref(ex, st, call.args[0])
+    b = deref(ex, st, call.args[1])
+    return ex.ret(st, call, Bool(a.fields[0].e == b.fields[0].e))
+
+
+@model(r'^RangeInclusive::new$')
+def m_range_incl_new(ex, st, call):
+    a, b = call.args
+    return ex.ret(st, call, Agg('struct', 'RangeInclusive', {0: a, 1: b, 2: Bool(False)}))
+
+
+@model(r'^RangeInclusive::contains$|^Range::contains$|^<RangeInclusive<.*> as RangeBounds<.*>>::contains$|^<Range<.*> as RangeBounds<.*>>::contains$')
+def m_range_contains(ex, st, call):
+    r = deref(ex, st, call.args[0])
+    x = deref(ex, st, call.args[1])
+    lo, hi = r.fields[0], r.fields[1]
+    incl = r.ty.startswith('RangeInclusive')
+    if isinstance(x, Int):
+        s = x.signed
+        ge = (x.e >= lo.e) if s else z3.UGE(x.e, lo.e)
+        if incl:
+            le = (x.e <= hi.e) if s else z3.ULE(x.e, hi.e)
+        else:
+            le = (x.e < hi.e) if s else z3.ULT(x.e, hi.e)
+        return ex.ret(st, call, Bool(z3.And(ge, le)))
+    if isinstance(x, Float):
+        le = z3.fpLEQ(x.e, hi.e) if incl else z3.fpLT(x.e, hi.e)
+        return ex.ret(st, call, Bool(z3.And(z3.fpLEQ(lo.e, x.e), le)))
+    return None
+
+
+@model(r'^(u8|u16|u32|u64|usize|i32|i64)::wrapping_neg$')
+def m_wrapping_neg(ex, st, call):
+    a = call.args[0]
+    return ex.ret(st, call, Int(-a.e, a.signed))
